@@ -49,6 +49,12 @@ CHECKS.update({
    text="Every list/slist mutator on rings of up to 4 (5) nodes with every operand position or section (disjoint, non-adjacent for swap/set/mov), and every queue operation after every valid push/pull history of length <= 3 (4) with symbolic indices (any 64-bit value beyond the end; signed for at()), symbolic payload tags; ring integrity, fixed element addresses, pool/ring disjointness checked after every call.",
    note=E2NOTE),
 })
+CHECKS.update({
+ "C06": dict(engine="llsym", cat="model_checking", design="4/C06",
+   technique="symbolic execution of src/str.c, src/utf.c IR (llsym + z3) from constructed string states with symbolic content against an abstract byte string; vsnprintf modelled as an arbitrary NUL-free output",
+   text="Every string operation (append of characters, blocks, C strings, strings, formatted text, code points; pop; trim with whitespace or symbolic sets; length change; hand-over; comparisons) from 9 constructed states (empty, capacity 8/16, terminated and raw, lengths up to the capacity) with symbolic content and arguments, plus pairs (thorough: triples) of operations across the reallocation boundary.",
+   note=E2NOTE + " vsnprintf stub per C99 7.19.6.12; host C-locale isspace table."),
+})
 NOT_YET = {}
 
 def main():
